@@ -843,6 +843,10 @@ func (ev *c17Eval) exec(s ast.Stmt, env *c17Env) c17Ctl {
 		return ev.block(x.List, c17NewEnv(env))
 	case *ast.DeclStmt:
 		gd, ok := x.Decl.(*ast.GenDecl)
+		if ok && (gd.Tok == token.CONST || gd.Tok == token.TYPE) {
+			// local constants are values of the type checker (constVal); a local type declares nothing to execute
+			return c17CtlNext
+		}
 		if !ok || gd.Tok != token.VAR {
 			ev.fail(s, "declaration outside the evaluated subset")
 		}
